@@ -326,7 +326,7 @@ def attach(model, capture_setup=False):
             pbm = m.PBM[p]
             o_adj = pbm.adjustSizeClassesEuler
 
-            def adj(check, p=p, o_adj=o_adj):
+            def adj(check, p=p, o_adj=o_adj, pbm=pbm):
                 rec.upd_phase = p
                 rec.upd_table_slot = p
                 rec.cur['upd'][p] = dict(table=[], xaNew=np.zeros(0), xbNew=np.zeros(0), regrow=rec.new_eval())
